@@ -96,7 +96,20 @@ def check(repo: Repo) -> Result:
                 continue
             cval, cdv = si[key]
             if udv != cdv:
-                res.note(f"name {nm!r} is a constant ({cdv}) and a unit of another dimension ({udv}); the constant wins in the namespace")
+                # a constant whose own symbol is also the unit of the same quantity (t_pl, me, Msun ...) has a unit twin:
+                # each of its alias names, where it is a unit name too, must be a name of that twin
+                twin = None
+                if nm != key:
+                    try:
+                        ksc, kdv, _ = t.resolve_symbol(key)
+                        if kdv == cdv and rel(ksc, cval) <= 1e-12:
+                            twin = key
+                    except AnalysisError:
+                        pass
+                if twin is not None:
+                    res.bad(f"twin:{nm}", f"{LUT} {nm!r}", f"{nm!r} is an alias of the constant {key} ({cdv}) and {key} is also the unit of that quantity, but as a unit name {nm!r} resolves to a unit of dimension {udv}: the same name denotes different quantities as a constant and as a unit", f"an alternative name of the unit {key}", f"a unit of dimension {udv}", rid=r2)
+                else:
+                    res.note(f"name {nm!r} is a constant ({cdv}) and a unit of another dimension ({udv}); the constant wins in the namespace")
                 continue
             res.check(rel(usc, cval) <= 1e-15, f"twin:{nm}", f"{LUT} {nm!r}", f"{nm!r} as a unit has SI scale {usc!r} but as a constant {cval!r} (relative difference {rel(usc, cval):.3g})", cval, usc, rid=r2)
 
@@ -125,6 +138,7 @@ def check(repo: Repo) -> Result:
     def _route(t_):
         t_.rule("C03-R4", "x")
         c03.em_route(repo, t_, "C03-R4")
+        c03.em_apply(repo, t_, "C03-R4")
 
     share(res, r6, "C03", _route, ["C03-R4"], want=lambda k: k.startswith("em-route:"), min_keys=2)
     return res
